@@ -3,11 +3,11 @@ package eng
 import (
 	"context"
 	"encoding/binary"
-	"strings"
-	"sync/atomic"
 	"fmt"
 	"math/rand"
+	"strings"
 	"sync"
+	"sync/atomic"
 	"testing"
 	"testing/synctest"
 	"time"
@@ -106,12 +106,15 @@ type ScenResult struct {
 	CloseTook  time.Duration
 	// QuiesceData is the number of non-ping DATA packets put on the wire
 	// during the quiescence observation window.
-	QuiesceData int
-	Drained     bool // both send queues were seen empty after completion
-	QuiesceFrom time.Duration
-	StateCQ     gbn.VerifConnState // at the start of the quiescence window
-	StateSQ     gbn.VerifConnState
-	Panic       any
+	// BlockedSendA / BlockedSendB: the direction's sender was inside a Send
+	// call when the run ended (before anything was closed).
+	BlockedSendA, BlockedSendB bool
+	QuiesceData                int
+	Drained                    bool // both send queues were seen empty after completion
+	QuiesceFrom                time.Duration
+	StateCQ                    gbn.VerifConnState // at the start of the quiescence window
+	StateSQ                    gbn.VerifConnState
+	Panic                      any
 }
 
 // Hooks lets a check observe / perturb a scenario.
@@ -319,6 +322,7 @@ func runScenBody(sc *Scen, h Hooks, res *ScenResult, settle func()) {
 		settle()
 	}
 	res.Elapsed = time.Since(t0)
+	res.BlockedSendA, res.BlockedSendB = fa.InSend.Load(), fb.InSend.Load()
 	res.StateC, res.StateS = p.C.VerifState(), p.S.VerifState()
 	if h.BeforeClose != nil {
 		h.BeforeClose(p, res)
